@@ -279,6 +279,26 @@ def payload_ctors(fx):
     return out
 
 
+def payload_pair_ctors(fx):
+    """{def: field} — crate-local functions that build a payload and hand it back as field k of a tuple, next to something
+    else (`fn responding_task(msg) -> (Payload<A>, oneshot::Receiver<R>)`): their call sites are where that payload comes
+    into being, in `result.<field>`"""
+    pc = payload_ctors(fx)
+    out = {}
+    for f in fx.d["fns"]:
+        if f["kind"] not in ("fn", "assoc_fn") or f.get("is_async") or f["def"] in pc or not (f.get("output") or "").startswith("(") or PAYLOAD + "<" not in (f.get("output") or ""):
+            continue
+        b = Body(f)
+        for blk in b.blocks:
+            for st in blk["s"] if not blk["c"] else []:
+                if st["k"] == "assign" and st["p"] == [0] and st["r"]["k"] == "agg" and st["r"].get("ak") == "tuple":
+                    for k, op in enumerate(st["r"]["ops"]):
+                        os_ = b.origins(op) if op.get("k") in ("move", "copy") else set()
+                        if os_ and all(o.kind == "call" and not o.proj and (b.call_at(o).get("resolved") or b.call_at(o).get("callee")) in pc for o in os_):
+                            out[f["def"]] = "f%d" % k
+    return out
+
+
 def pair_helpers(fx):
     """crate-local synchronous functions that return the (loop future, address) pair of a create_loop* call unchanged
     (a builder's private `into_event_loop`): {def: maker def}"""
